@@ -16,8 +16,31 @@ class CaseTimeout(Exception):
     pass
 
 
+class CaseCpuExceeded(Exception):
+    """The case burnt more CPU time than any legitimate case comes near (load independent, unlike wall clock)."""
+
+
 def _alarm(signum, frame):  # noqa: ARG001
     raise CaseTimeout()
+
+
+def _cpu_alarm(signum, frame):  # noqa: ARG001
+    # where is the interpreter spinning?  innermost frame that belongs to the tree under test or to /verif decides
+    root = core.repo_root() + os.sep
+    where, side = "?", "other"
+    f = frame
+    while f is not None:
+        fn = os.path.abspath(f.f_code.co_filename) if not f.f_code.co_filename.startswith("<") else ""
+        if fn.startswith(root):
+            where, side = f"{os.path.basename(fn)}:{f.f_code.co_name}", "repo"
+            break
+        if fn.startswith(core.VERIF_ROOT + os.sep):
+            where, side = f"{os.path.basename(fn)}:{f.f_code.co_name}", "verif"
+            break
+        f = f.f_back
+    e = CaseCpuExceeded(where)
+    e.side = side
+    raise e
 
 
 def load_prop(prop_id: str):
@@ -36,10 +59,19 @@ def run_one(prop, ctx: core.Ctx, idx: int, case: dict, timeout_s: int) -> None:
     c0 = time.process_time()
     signal.signal(signal.SIGALRM, _alarm)
     signal.alarm(timeout_s)
+    cpu_limit = float(os.environ.get("VERIF_CASE_CPU_LIMIT_S") or getattr(prop, "CASE_CPU_LIMIT_S", 420))
+    signal.signal(signal.SIGPROF, _cpu_alarm)
+    signal.setitimer(signal.ITIMER_PROF, cpu_limit)
     try:
         prop.run_case(case, ctx)
     except CaseTimeout:
         ctx._emit({"t": "timeout", "i": idx, "case": core.jsonable(case)})
+    except CaseCpuExceeded as e:
+        if getattr(e, "side", "") == "repo":
+            # the tree under test spins: a hang witness that does not depend on the load of the machine
+            ctx.violation(f"cpu-budget-exceeded:{e.args[0]}", {"cpu_limit_s": cpu_limit, "spinning_in": e.args[0]})
+        else:
+            ctx._emit({"t": "timeout", "i": idx, "case": core.jsonable(case)})
     except core.Inconclusive as e:
         ctx._emit({"t": "inconclusive", "i": idx, "why": str(e)[:300]})
     except core.StepBudgetExceeded as e:
@@ -54,6 +86,7 @@ def run_one(prop, ctx: core.Ctx, idx: int, case: dict, timeout_s: int) -> None:
             ctx._emit({"t": "harness_error", "i": idx, "case": core.jsonable(case), "tb": tb[-2000:]})
     finally:
         signal.alarm(0)
+        signal.setitimer(signal.ITIMER_PROF, 0)
     ctx._emit({"t": "case_end", "i": idx, "s": round(time.monotonic() - t0, 4), "cpu": round(time.process_time() - c0, 4)})
 
 
